@@ -6,6 +6,7 @@
 //! result lines (hex numbers) are written.
 
 mod asm;
+mod cmd;
 mod dbg;
 mod edit;
 mod util;
@@ -39,6 +40,7 @@ fn main() {
             "ASM" => asm::run_asm(&nums),
             "DBG" => dbg::run_dbg(&nums),
             "C20" => edit::run_c20(&nums),
+            "C14" => cmd::run_c14(&nums),
             other => panic!("unknown case kind {other}"),
         };
         writeln!(output, "# {kind}").unwrap();
